@@ -262,7 +262,7 @@ func (d *Decorated) sortedToks() []string {
 func (d *Decorated) goEpilogue(pkg string, object bool) string {
 	var b strings.Builder
 	b.WriteString("\n// ---- harness-owned epilogue ---- (this comment contains the section mark %% on purpose)\n")
-	b.WriteString("func tokCode(ch byte, p int) int {\n\tswitch ch {\n")
+	b.WriteString("func tokCode(ch byte, p int) int {\n\tswitch ch {\n\tcase 1:\n\t\tpanic(\"harness: the lexer gives up\") // user code that fails in the middle of a parse\n")
 	var codes []string
 	for _, t := range d.sortedToks() {
 		code := t
@@ -419,7 +419,7 @@ const tsPrologue = `"use strict";
 func (d *Decorated) tsEpilogue() string {
 	var b strings.Builder
 	b.WriteString("\n// ---- harness-owned epilogue ---- (this comment contains the section mark %% on purpose)\n")
-	b.WriteString("function tokCode(ch :number, p :number) :number {\n\tswitch (ch) {\n")
+	b.WriteString("function tokCode(ch :number, p :number) :number {\n\tswitch (ch) {\n\tcase 1: throw new Error(\"harness: the lexer gives up\");\n")
 	var codes []string
 	for _, t := range d.sortedToks() {
 		code := t
